@@ -110,7 +110,7 @@ impl TransformerContext {
 pub trait EventGen {
 //@item src/transform.rs :: trait EventGen :: fn generate_events
 //@ ensures
-//@ - final(context).current_depth == old(context).current_depth    @@C17.depth.restored
+//@ - final(context).current_depth == old(context).current_depth    @@C17.depth.restored @@C10.failed_tag.no_trace
 //@end
 }
 
